@@ -294,8 +294,8 @@ Qed.
 
 Lemma root_damage_tree st d : r_tree (root_damage st d) = r_tree st.
 Proof.
-  unfold root_damage. destruct (rs_contains rsfuel (r_damage st) d) as [[|]|]; [reflexivity| |reflexivity].
-  destruct (rs_add rsfuel (r_damage st) d); reflexivity.
+  unfold root_damage. destruct (rs_contains (r_fuel st) (r_damage st) d) as [[|]|]; [reflexivity| |reflexivity].
+  destruct (rs_add (r_fuel st) (r_damage st) d); reflexivity.
 Qed.
 
 Lemma win_expose_tree st id ex : r_tree (win_expose st id ex) = r_tree st.
